@@ -287,6 +287,16 @@ class SyncedCollection(Collection):
         cls._threading_support_is_active = False
 
     @property
+    def _mutation_lock(self):
+        """Context manager holding the locks needed by a mutation that does not load.
+
+        clear() and reset() modify and save the root without the load-and-save
+        context. Subclasses whose load-and-save context takes additional locks must
+        return a context manager that takes them in the same order.
+        """
+        return self._thread_lock
+
+    @property
     def _lock_id(self):
         raise NotImplementedError(
             "Backends must implement the _lock_id property to support multithreaded "
